@@ -111,4 +111,6 @@ def check_groundwater_table(
         # prof.th_fc_Adj = thfcAdj
         return (NewCond_th_fc_Adj, NewCond_WTinSoil, NewCond_zGW)
 
-    return (NewCond_th_fc_Adj, None, None)
+    # No water table: the state keeps the values set at initialisation
+    # (water table not in the profile, depth = no-value marker)
+    return (NewCond_th_fc_Adj, False, NewCond_zGW)
